@@ -256,7 +256,10 @@ def st_case(draw):
         c.update(size=size, cap=cap, ids=[H(x) for x in draw(st_ids(size, n))])
         if fam == "blocks":
             c["block_size"] = draw(st.sampled_from([0, cap * size, cap * size + 1, cap * size + 7, cap * size + cap,
-                                                    cap * size + size, 2 * cap * size]))
+                                                    cap * size + size, 2 * cap * size, cap * size + 4096, cap * size + 65535,
+                                                    cap * size + 65536, cap * size + 65537, 200003]))
+            if c["block_size"] > 10000:
+                c["ids"] = c["ids"][:3 * cap + 1]   # a handful of blocks is enough when each is that large
         else:
             c["block_size"] = draw(st.integers(1, cap * size - 1)) if cap * size > 1 else -1
             if c["block_size"] == -1:
